@@ -497,12 +497,14 @@ func (fr *Frame) builtin(v ssa.Value, b *ssa.Builtin, cc *ssa.CallCommon, st *St
 			return
 		}
 		// map / chan length
+		if m, isMap := types.Unalias(cc.Args[0].Type()).Underlying().(*types.Map); isMap {
+			card := c.mapCard(c.ss.SortOf(m.Key()))
+			dom := app("select", c.heapGet(st, mapDomKey(cc.Args[0].Type())), t.S)
+			fr.setVal(v, ite(app("=", t.S, "0"), "0", app(card, dom)))
+			return
+		}
 		n := fr.setFresh(v)
 		c.emit(fmt.Sprintf("(assert (>= %s 0))", n))
-		if _, isMap := types.Unalias(cc.Args[0].Type()).Underlying().(*types.Map); isMap {
-			c.abstracted(fr.fn.Name() + ": len(map) is an unconstrained non-negative integer")
-			c.emit(fmt.Sprintf("(assert (=> (= %s 0) (= %s 0)))", t.S, n))
-		}
 	case "cap":
 		t := fr.term(cc.Args[0], st)
 		n := fr.setFresh(v)
@@ -601,4 +603,27 @@ func (fr *Frame) recursionObligation(callee *ssa.Function, cc *ssa.CallCommon, s
 		}
 	}
 	c.obligation("rec-dec", "", pos, "", st.reach, goal, nil).Note = "measure decreases at call to " + short
+}
+
+// mapCard declares the cardinality function of map domains over key sort ks, with the axioms needed
+// to follow insertions and deletions.
+func (c *FnCtx) mapCard(ks Sort) string {
+	name := "mapcard!" + sanitize(string(ks))
+	if c.specDecl == nil {
+		c.specDecl = map[string]bool{}
+	}
+	if c.specDecl[name] {
+		return name
+	}
+	c.specDecl[name] = true
+	K := string(ks)
+	D := fmt.Sprintf("(Array %s Bool)", K)
+	c.ss.extraDecl = append(c.ss.extraDecl,
+		fmt.Sprintf("(declare-fun %s (%s) Int)", name, D),
+		fmt.Sprintf("(assert (forall ((d %s)) (! (>= (%s d) 0) :pattern ((%s d)))))", D, name, name),
+		fmt.Sprintf("(assert (= (%s ((as const %s) false)) 0))", name, D),
+		fmt.Sprintf("(assert (forall ((d %s) (k %s)) (! (=> (select d k) (> (%s d) 0)) :pattern ((select d k) (%s d)))))", D, K, name, name),
+		fmt.Sprintf("(assert (forall ((d %s) (k %s)) (! (= (%s (store d k true)) (ite (select d k) (%s d) (+ (%s d) 1))) :pattern ((%s (store d k true))))))", D, K, name, name, name, name),
+		fmt.Sprintf("(assert (forall ((d %s) (k %s)) (! (= (%s (store d k false)) (ite (select d k) (- (%s d) 1) (%s d))) :pattern ((%s (store d k false))))))", D, K, name, name, name, name))
+	return name
 }
